@@ -124,7 +124,7 @@ def materialisation_step(ctx, tk, coh):
             for kk in need:
                 if kk == k:
                     continue
-                if not (fa.cfg.must_pass(stores[kk], fa.cfg.exit, start=s) or any(fa.cfg.dominates(o, s) for o in stores[kk])):
+                if not (fa.cfg.must_pass(stores[kk], fa.cfg.exit, start=s) or any(fa.cfg.dominates(o, s) for o in stores[kk]) or fa.cfg.must_pass(stores[kk], s)):
                     ok = False
                     detail = "a path stores %s without %s" % (k, kk)
     ctx.decide("C06.e", f, what, ok, detail, key="together", engine="E1")
@@ -181,10 +181,14 @@ def buffer_extent_reads(ctx, tk):
     cls = ctx.program.cls("raggedarray.base.RaggedBase")
     what = "the extent of the raw buffer is read only where the buffer is the array's own (materialised, or just gathered)"
     n_sites = 0
+    from ..coherence import Coherence, materialisation_code
+    licensed = materialisation_code(ctx.cached("coherence", lambda: Coherence(tk)))
     for m in cls.methods.values():
         fa = ctx.fa(m)
         if not m.params:
             continue
+        if m.qual in licensed and not any(isinstance(x, ast.Attribute) and isinstance(x.ctx, ast.Store) and x.attr == "__data" for x in ast.walk(m.node)):
+            continue      # a read-only helper of the materialisation step: there the parent's buffer is what is meant
         selfn = m.params[0]
         gathers = [n for n in fa.cfg.stmts() if n.kind == "stmt" and isinstance(n.ast, ast.Assign) and any(
             isinstance(tg, ast.Attribute) and tg.attr == "__data" and isinstance(tg.value, ast.Name) and tg.value.id == selfn for tg in n.ast.targets)]
